@@ -943,7 +943,7 @@ def _transform(
         sigma = kernel_params["sigma"]
 
         # sigma is specified by a single variance
-        if isinstance(sigma, (int, float)):
+        if np.ndim(sigma) == 0:
             sigma = np.array([[sigma, 0.0], [0.0, sigma]], dtype=np.float64)
 
         if sigma[0][0] == sigma[1][1] and sigma[0][1] == 0.0:
